@@ -143,8 +143,19 @@ def c02(pid, tier, seed):
             MsgShapes=("e", "a", "W", "W1", "nlA", "AnnB"), TextShapes=("T", "TW1", "TnlT", "e"), Tpls=("M", "PnM", "MnC"),
             Fins=("AndLeave", "AndClear", "Abandon", "WithMessage"), DTs=(0, 1000), M0="id", mode=("sim", 400 if q else 4000, 32), shards=12),
     ]
-    return screen_check(pid, tier, seed, fams,
-                        "histories of MC_Screen over MultiProgress operations; judged by Trace_Screen (order, once, below the log, statics)")
+    res = screen_check(pid, tier, seed, fams,
+                       "histories of MC_Screen over MultiProgress operations; judged by Trace_Screen (order, once, below the log, statics); "
+                       "schedule clause: thread-choice sequences (Choices.tla) replayed under the controlled scheduler, frames judged by Trace_Sync!FramesOK")
+    import props_sync
+    sc = props_sync.c02_schedules(pid, tier, seed)
+    cov = res["coverage"]
+    cov["states"] += sc["states"]
+    cov["transitions"] += sc["transitions"]
+    cov["traces_validated_against_impl"] += sc["runs"]
+    cov["records_validated"] += sc["records"]
+    cov["schedule_clause"] = {"runs": sc["runs"], "clause_counts": sc["stats"], "sample": sc["sample"]}
+    res["failures"] += sc["fails"]
+    return res
 
 
 def c03(pid, tier, seed):
